@@ -315,3 +315,33 @@ P("C18", "exploration",
   "runtime conservation/exactly-once monitor with unique client ids + schedule fingerprints via hook",
   "Held on every (scenario, pool, permutation) run; distinct schedules counted in the evidence.",
   "schedules are whatever rayon + jitter produced")
+
+# workload classes added after the later seeded-change rounds (DESIGN.md section 11)
+_RULE_ADDENDA = {
+    "C01": " Plus replay floods: one report repeated 65 535..131 072 times in front of the other t-1 (thorough more).",
+    "C02": " Plus foreign sharings whose (measurement, epoch) is the target's with a separator byte shifted across the boundary, near "
+           "measurements differing beyond byte 64, large thresholds also 1025/1100, and the adss-level relation C^D == M^R.",
+    "C03": " Plus XOR combinations of the 32-byte report fields (C, D, tag, ...) tried as key and key seed.",
+    "C04": " Plus separator-aware boundary shifts (| , : / ; space newline NUL - _ .), components swapped through LE/BE renderings, and "
+           "generators built for another measurement, used, then re-targeted through their public field.",
+    "C05": " Plus element faults (0, 1, p-1, 2^128) on x / y, random-length sharings, and floods: an altered or foreign first share, "
+           "65 535..131 073 repeats, then another whole sharing.",
+    "C06": " Plus zero runs of 1..300 draws at the point draw, the public evaluator over polynomials of mixed degrees, iterator adaptors "
+           "(nth, skip, step_by), and an every-threshold sweep (1..320, thorough 1..1400).",
+    "C07": " Plus a,b,a operation sequences (inversion, evaluator) and canonical elements of the band [2^128, p) through the share path.",
+    "C08": " Plus canonical elements of the band [2^128, p) in every generated share and giant shares (43 689..100 000 elements).",
+    "C09": " Plus authentic adss communes with non-standard message / coin lengths through group_shares, and Server::eval on a server "
+           "whose key was imported.",
+    "C10": " Plus keys that travel between threads (every fifth early puncture of a long sequence on a fresh thread).",
+    "C11": " Plus servers with 1..3 configured tags whose unregistered tags are punctured first, with repeated tags in the list.",
+    "C12": " Plus re-imported blinds and imports of inconsistent key states (afterwards the server is its old self or the imported state).",
+    "C13": " Plus completeness re-checked after puncture histories (lowest-first, middle, highest-first).",
+    "C14": " Plus identity and base point in the point pool, tag lists with repeats, re-sync into a live instance.",
+    "C15": " Plus the same JSON value with members reordered / re-spaced, and valid-after-invalid loads.",
+    "C16": " Plus six refused collection shapes (no y, threshold 0, sub-threshold, ...) each followed at once by an honest recovery.",
+    "C17": " Plus empty vs NUL measurements and an every-threshold sweep (1..160, thorough 1..1400).",
+    "C18": " Plus sibling measurements differing in trailing zeros, long aux, and a poisoned batch on the same server object before the "
+           "honest runs.",
+}
+for _k, _v in _RULE_ADDENDA.items():
+    PROPS[_k]["rule"] += _v
